@@ -1,56 +1,87 @@
 mod body;
 mod closures;
 mod crash;
+mod engines;
 mod exec;
 mod gen;
 mod model;
 mod model_round;
 mod model_step;
+mod orch;
 mod plan;
 mod rng;
 mod run;
+mod shrink;
+mod spec;
 mod trace;
 mod world;
 
+fn usage() -> ! {
+    eprintln!("usage: simcheck check <property> <quick|thorough> | replay <file> | show <property> <seed> | dev <property> <runs> <batch>");
+    std::process::exit(2)
+}
+
 fn main() {
     run::install_panic_hook();
-    let args: Vec<String> = std::env::args().collect();
-    if args.get(1).map(|s| s.as_str()) == Some("show") {
-        let seed: u64 = args[2].parse().unwrap();
-        let prof = gen::Profile::base("dev");
-        let plan = gen::gen_plan(seed, &prof);
-        for (i, a) in plan.actions.iter().enumerate() {
-            println!("A{i}: {:?}", a);
+    let args: Vec<String> = std::env::args().skip(1).collect();
+    let Some(cmd) = args.first() else { usage() };
+    match cmd.as_str() {
+        "check" => {
+            if args.len() < 3 {
+                usage()
+            }
+            std::process::exit(orch::check(&args[1], &args[2]))
         }
-        println!("knobs: {:?}", plan.knobs);
-        let out = run::run_plan(&plan, true);
-        for (i, e) in out.trace.unwrap().iter().enumerate() {
-            println!("{i}: {:?}", e);
-        }
-        for v in out.violations.iter() {
-            println!("VIOLATION {} {} at {}: {}", v.property, v.rule, v.at, v.detail);
-        }
-        return;
-    }
-    let n: u64 = args.get(1).and_then(|s| s.parse().ok()).unwrap_or(100);
-    let base: u64 = args.get(2).and_then(|s| s.parse().ok()).unwrap_or(1);
-    let prof = gen::Profile::base("dev");
-    let mut by_rule: std::collections::BTreeMap<String, (u64, u64)> = Default::default();
-    let t0 = std::time::Instant::now();
-    for i in 0..n {
-        let seed = rng::mix(base, i);
-        let plan = gen::gen_plan(seed, &prof);
-        let out = run::run_plan(&plan, false);
-        for v in out.violations.iter().take(1) {
-            let e = by_rule.entry(format!("{} {}", v.property, v.rule)).or_insert((0, seed));
-            e.0 += 1;
-            if e.0 == 1 {
-                println!("seed {} -> {} {}: {}", seed, v.property, v.rule, v.detail);
+        "replay" => std::process::exit(orch::replay(args.get(1).unwrap_or_else(|| usage()))),
+        "worker" => orch::worker(&args[1..]),
+        "rehash" => orch::rehash(&args[1..]),
+        "runplan" => orch::runplan(&args[1]),
+        "show" => {
+            let prop = &args[1];
+            let seed: u64 = args[2].parse().unwrap();
+            let mut plan = orch::gen_for(prop, seed, "quick");
+            if let Some(k) = args.get(3) {
+                plan.knobs.crash_at = Some(k.parse().unwrap());
+            }
+            for (i, a) in plan.actions.iter().enumerate() {
+                println!("A{i}: {:?}", a);
+            }
+            println!("knobs: {:?}", plan.knobs);
+            let out = orch::run_any(&plan, true);
+            for (i, e) in out.trace.unwrap().iter().enumerate() {
+                println!("{i}: {:?}", e);
+            }
+            for v in out.violations.iter() {
+                println!("VIOLATION {} {} at {}: {}", v.property, v.rule, v.at, v.detail);
             }
         }
-    }
-    println!("{} runs in {:?}", n, t0.elapsed());
-    for (k, v) in by_rule {
-        println!("{:6} {}  (first seed {})", v.0, k, v.1);
+        "dev" => {
+            let prop = &args[1];
+            let n: u64 = args.get(2).and_then(|s| s.parse().ok()).unwrap_or(1000);
+            let base: u64 = args.get(3).and_then(|s| s.parse().ok()).unwrap_or(1);
+            let mut by_rule: std::collections::BTreeMap<String, (u64, u64)> = Default::default();
+            let t0 = std::time::Instant::now();
+            let mut trig = 0;
+            for i in 0..n {
+                let seed = rng::mix(base, i);
+                let plan = orch::gen_for(prop, seed, "quick");
+                let out = orch::run_any(&plan, false);
+                if spec::trigger(prop, &out) {
+                    trig += 1;
+                }
+                for v in out.violations.iter().take(1) {
+                    let e = by_rule.entry(format!("{} {}", v.property, v.rule)).or_insert((0, seed));
+                    e.0 += 1;
+                    if e.0 == 1 {
+                        println!("seed {} -> {} {}: {}", seed, v.property, v.rule, v.detail);
+                    }
+                }
+            }
+            println!("{} runs ({} non-trivial) in {:?}", n, trig, t0.elapsed());
+            for (k, v) in by_rule {
+                println!("{:6} {}  (first seed {})", v.0, k, v.1);
+            }
+        }
+        _ => usage(),
     }
 }
